@@ -111,6 +111,8 @@ class Ctx:
         self.viol_counts['%s|%s' % (finding or '', what)] += 1
         if sum(1 for v in self.violations if (v['finding'], v['what']) == k) >= 5:
             return
+        if getattr(self, 'optsweep_on', None):
+            detail = dict(detail or {}, seen_with_these_options_switched_on=repr(self.optsweep_on))
         try:
             blob = base64.b64encode(pickle.dumps(case)).decode()
         except Exception:
@@ -174,6 +176,16 @@ def worker_main(argv):
     ctx.sandbox_dir = sandbox_dir
     journal = open(out + '.journal', 'w')
     t0 = time.time()
+    if shard == nshards - 1 and nshards > 1:
+        # option sweep (lib/optsweep.py): this worker switches on every boolean keyword parameter of SqParser / SqParser.eval that the checks do not know
+        from lib import optsweep
+        on = optsweep.install(ctx)
+        if on['constructor'] or on['eval']:
+            ctx.optsweep_on = on
+            ctx.notes.append('option sweep: this worker ran with %r' % (on,))
+            ctx.counters['workers_running_with_unknown_boolean_options_switched_on'] += 1
+        else:
+            ctx.counters['option_sweep_found_no_unknown_boolean_options(no-op)'] += 1
     mod.setup(ctx)
     soft = getattr(mod, 'CASE_DEADLINE', 20)
     budget = float(os.environ.get('VERIF_WORKER_BUDGET', '0')) or None
